@@ -15,6 +15,7 @@ DRIVERS = {"force-space": ("harness.forcedrv", "force_trace", "ForceTrace", FAMI
 
 def run(tier, seed):
     rep = Report("C02", tier, seed)
+    rep.add_proof("WeightsConvexAll")
     rep.add_mc("MC_Interp", tlc.model_check("MC_Interp", "MC_Interp.cfg" if tier == "thorough" else "MC_Interp_quick.cfg",
                                             must_take=["Probe"]))
     rng = random.Random(seed)
